@@ -676,7 +676,29 @@ def replay_group_by_pipeline(index, ob, seed, saved=None):
                 first_on_page = False
         if k != len(keys):
             return _r(True, input=case, observed=f"{k} data rows read back, {len(keys)} expected")
-    return _r(False, tried=len(cases))
+    # two-level hierarchy whose key names are NOT in alphabetical order (the order of group_by is the hierarchy, outer level first)
+    two = [{"SITE": ["x", "x"], "ARM": ["y", "x"]}, {"SITE": ["s1", "s1", "s2", "s2"], "ARM": ["a", "b", "a", "b"]},
+           {"SITE": ["s1", "s1", "s1", "s2"], "ARM": ["a", "a", "b", "b"]}]
+    for cols in two:
+        case = {"group_by": ["SITE", "ARM"], "columns": cols}
+        if saved is not None and case != saved.get("input", saved):
+            continue
+        n = len(cols["SITE"])
+        df = pl.DataFrame({"ARM": cols["ARM"], "SITE": cols["SITE"], "v": [f"r{i}" for i in range(n)]})
+        try:
+            s = rtf.RTFDocument(df=df, rtf_body=rtf.RTFBody(group_by=["SITE", "ARM"], as_colheader=False),
+                                rtf_column_header=[rtf.RTFColumnHeader(text=["AH", "SH", "VH"])]).rtf_encode()
+        except Exception as e:
+            return _r(True, input=case, observed=f"{type(e).__name__}: {e} (keys are contiguous for the hierarchy SITE > ARM)")
+        got = [[c.text for c in r.cells] for p in parse(s).pages for r in p.rows if len(r.cells) == 3 and [c.text for c in r.cells] != ["AH", "SH", "VH"]]
+        want = []
+        for i in range(n):
+            site_rep = i > 0 and cols["SITE"][i] == cols["SITE"][i - 1]
+            arm_rep = site_rep and cols["ARM"][i] == cols["ARM"][i - 1]
+            want.append(["" if arm_rep else cols["ARM"][i], "" if site_rep else cols["SITE"][i], f"r{i}"])
+        if got != want:
+            return _r(True, input=case, observed=got, expected=want)
+    return _r(False, tried=len(cases) + len(two))
 
 
 def replay_figure_document(index, ob, seed, saved=None):
@@ -841,3 +863,136 @@ def replay_colour_references(index, ob, seed, saved=None):
                 if got != want:
                     return _r(True, input=dict(inp, section=k // 2), observed=f"text colour index {cell.cf} -> table entry {got!r}", expected=f"{want_name} = {want!r}")
     return _r(False)
+
+
+# ---- C10 -------------------------------------------------------------------------------------------
+def _rtf_plain_text(s):
+    """A small RTF reader: the text a reader shows (control words dropped, \\uN decoded with one fallback character skipped per \\uc1,
+    \\\\ \\{ \\} unescaped, surrogate pairs joined); font / colour tables and \\* destinations skipped."""
+    out, i, n = [], 0, len(s)
+    skip_depth = None
+    depth = 0
+    pending_skip = 0
+    units = []
+
+    def flush_units():
+        if units:
+            b = b"".join(u.to_bytes(2, "little") for u in units)
+            out.append(b.decode("utf-16-le", errors="replace"))
+            units.clear()
+    while i < n:
+        ch = s[i]
+        if ch == "{":
+            depth += 1
+            if skip_depth is None and (s.startswith("{\\fonttbl", i) or s.startswith("{\\colortbl", i) or s.startswith("{\\*", i) or s.startswith("{\\pict", i)):
+                skip_depth = depth
+            i += 1
+            continue
+        if ch == "}":
+            if skip_depth is not None and depth == skip_depth:
+                skip_depth = None
+            depth -= 1
+            i += 1
+            continue
+        if ch == "\\":
+            if i + 1 < n and s[i + 1] in "\\{}":
+                if skip_depth is None:
+                    if pending_skip:
+                        pending_skip -= 1
+                    else:
+                        flush_units()
+                        out.append(s[i + 1])
+                i += 2
+                continue
+            j = i + 1
+            while j < n and s[j].isalpha():
+                j += 1
+            word = s[i + 1:j]
+            k = j
+            if k < n and (s[k] == "-" or s[k].isdigit()):
+                k += 1
+                while k < n and s[k].isdigit():
+                    k += 1
+            par = s[j:k]
+            if k < n and s[k] == " ":
+                k += 1
+            if skip_depth is None:
+                if word == "u" and par:
+                    v = int(par)
+                    units.append(v + 65536 if v < 0 else v)
+                    pending_skip = 1
+                elif word in ("par", "line", "cell", "row", "page", "tab"):
+                    flush_units()
+                    out.append("\n")
+            i = k if word else i + 2
+            continue
+        if skip_depth is None and ch not in "\r\n":
+            if pending_skip:
+                pending_skip -= 1
+            else:
+                flush_units()
+                out.append(ch)
+        i += 1
+    flush_units()
+    return "".join(out)
+
+
+def replay_unicode_document(index, ob, seed, saved=None):
+    """C10 on whole documents: texts with Latin-1, BMP and astral characters placed in every text position (title, subline, column header,
+    body cell, page_by heading, subline_by heading, footnote, source, page header / footer) are read back intact by an RTF reader."""
+    import polars as pl
+    rtf = index.real_module("rtflite")
+    texts = ["Café München", "α-blocker ≥ 5 mg", "東京 \U0001F600", "naïve ± 0.5", "plain ascii"]
+    positions = ["title", "subline", "header", "cell", "page_by_heading", "subline_by_heading", "footnote_table", "footnote_par", "source", "page_header", "page_footer"]
+    for pos in positions:
+        for t in texts:
+            case = {"position": pos, "text": t}
+            if saved is not None and case != saved.get("input", saved):
+                continue
+            df = pl.DataFrame({"g": [t, t, "other"], "x": ["a", "b", "c"], "y": ["1", "2", "3"]})
+            kw, bkw = {}, {}
+            if pos == "title":
+                kw["rtf_title"] = rtf.RTFTitle(text=t)
+            elif pos == "subline":
+                kw["rtf_subline"] = rtf.RTFSubline(text=t)
+            elif pos == "header":
+                kw["rtf_column_header"] = [rtf.RTFColumnHeader(text=[t, "X", "Y"])]
+            elif pos == "cell":
+                pass
+            elif pos == "page_by_heading":
+                bkw["page_by"] = ["g"]
+            elif pos == "subline_by_heading":
+                bkw["subline_by"] = ["g"]
+            elif pos == "footnote_table":
+                kw["rtf_footnote"] = rtf.RTFFootnote(text=t, as_table=True)
+            elif pos == "footnote_par":
+                kw["rtf_footnote"] = rtf.RTFFootnote(text=t, as_table=False)
+            elif pos == "source":
+                kw["rtf_source"] = rtf.RTFSource(text=t)
+            elif pos == "page_header":
+                kw["rtf_page_header"] = rtf.RTFPageHeader(text=t)
+            elif pos == "page_footer":
+                kw["rtf_page_footer"] = rtf.RTFPageFooter(text=t)
+            try:
+                s = rtf.RTFDocument(df=df, rtf_body=rtf.RTFBody(**bkw), **kw).rtf_encode()
+            except Exception as e:
+                return _r(True, input=case, observed=f"{type(e).__name__}: {e}")
+            non_ascii = [c for c in s if ord(c) > 127]
+            if non_ascii:
+                return _r(True, input=case, observed=f"raw non-ASCII character U+{ord(non_ascii[0]):04X} in the RTF stream")
+            plain = _rtf_plain_text(s)
+            if t not in plain:
+                near = [ln for ln in plain.split("\n") if ln.strip() and (t[:3] in ln or "\\u" in ln)][:2]
+                return _r(True, input=case, observed=f"text not read back intact; reader shows {near}", expected=t)
+    return _r(False, tried=len(positions) * len(texts))
+
+
+# ---- C17 -------------------------------------------------------------------------------------------
+def replay_assemble(index, ob, seed, saved=None):
+    """Real documents written by write_rtf and assembled by the real assemble_rtf (the bounded read-back of contracts/assemble.py, all
+    ordered pairs and singles): the first failing order is the replayed input."""
+    from contracts.assemble import bounded_assemble
+    res = bounded_assemble(index, "quick", seed)
+    for f in res.get("failures", []):
+        return _r(True, input=f.get("input"), observed=f.get("observed", f.get("name")))
+    return _r(False, cases=res.get("cases"))
